@@ -122,6 +122,7 @@ def showOutcome : Outcome → String
   | .errAuthSuccess => "err:auth-success"
   | .errProvider => "err:provider"
   | .errBoth => "err:both"
+  | .errTlsVerify => "err:tls-verify"
   | .crash => "crash"
 
 def showCall : Call → String
@@ -142,6 +143,66 @@ def showTrace (t : Trace) (custom withProv : Bool) (pre : String := "") : String
     (if withProv then " prov=" ++ showList (t.provCalls.map toString) else "")
   if t.outcome = .crash then "crash:authenticateHandshake " ++ body
   else body ++ " outcome=" ++ showOutcome t.outcome
+
+def nodeName (n : String) : Option (List UInt8) :=
+  match n with
+  | "a" => some (strBytes "node-a.verif.example")
+  | "b" => some (strBytes "node-b.verif.example")
+  | _ => none
+
+def otherNode (n : String) : String := if n == "a" then "b" else "a"
+
+def loopback : List UInt8 := strBytes "127.0.0.1"
+
+/-- the certificates of the end-to-end scenarios (harness/cmd/c20/child.go `getTLSEnv`) -/
+def nodeCert (n kind : String) : Option ServerCert := do
+  let own ← nodeName n
+  let peer ← nodeName (otherNode n)
+  match kind with
+  | "good" => some { sans := [own, snExample, loopback], byTrustedCA := true }
+  | "peer" => some { sans := [peer, snExample, loopback], byTrustedCA := true }
+  | "other" => some { sans := [strBytes "other.verif.example"], byTrustedCA := true }
+  | "untrusted" => some { sans := [own, snExample, loopback], byTrustedCA := false }
+  | _ => none
+
+/-- `nil` or `I<0|1>S<0|1>R<0|1>` -/
+def parseTlsCfg (s : String) : Option (Option UserCfg) :=
+  if s == "nil" then some none else
+  match s.toList with
+  | ['I', i, 'S', sn, 'R', r] =>
+    some (some { insecure := i == '1', serverName := if sn == '1' then snExample else [], hasRootCAs := r == '1', nCerts := 0 })
+  | _ => none
+
+/-- `<node>:<n|i>` → (node, the host name HostnameAndPort() yields) -/
+def parseDial (s : String) : Option (String × List UInt8) :=
+  match s.splitOn ":" with
+  | [n, "n"] => (nodeName n).map (fun h => (n, h))
+  | [n, "i"] => (nodeName n).map (fun _ => (n, loopback))
+  | _ => none
+
+/-- crypto/tls sends no server_name extension for IP literals -/
+def sniOf (name : List UInt8) : List UInt8 :=
+  if name.all (fun c => (48 ≤ c && c ≤ 57) || c == 46 || c == 58 || c == 91 || c == 93) then [] else name
+
+structure TlsOp where
+  o : SslOpts
+  auth : Option AuthImpl
+  fs : List SFrame
+  certA : String
+  certB : String
+  dials : List String
+
+def parseTlsOp (ws : List String) : Option TlsOp :=
+  match ws with
+  | cfg :: ehv :: ca :: auth :: cls :: ca' :: cb :: dials => do
+    let cfg ← parseTlsCfg cfg
+    let ehv ← parseBool ehv
+    let ca ← parseFileSt ca
+    let auth ← parseAuth auth
+    let cls ← parseHex cls
+    pure { o := { cfg := cfg, enableHostVerification := ehv, ca := ca, cert := .absent, key := .absent }, auth := auth,
+           fs := [.supported, .authenticate cls, .authSuccess []], certA := ca', certB := cb, dials := dials }
+  | _ => none
 
 def credSent (t : Trace) : Bool := t.sent.any (fun x => match x with | .authResponse _ => true | _ => false)
 
@@ -211,6 +272,33 @@ def step (_ : Unit) (ws : List String) : Unit × String :=
       if cfg.static.isSome && cfg.provider.isSome then "bad-op"
       else if (connect cfg h fs).outcome = .crash then "crash:authenticateHandshake" else "ok"
     | _, _ => "bad-op"
+  -- end to end with TLS, one answer per dial (model vs code)
+  | "tlsx" :: rest => match parseTlsOp rest with
+    | some t =>
+      match t.dials.mapM (fun d => do
+        let (n, host) ← parseDial d
+        let cert ← nodeCert n (if n == "a" then t.certA else t.certB)
+        match dialTLS t.o host (strBytes "9042") cert t.auth t.fs with
+        | .ok r => some (s!"{d} sni={toHex (sniOf r.serverName)} tls={if r.accepted then "ok" else "fail"} sent=" ++
+            showList (r.trace.sent.map showSent) ++ " outcome=" ++ showOutcome r.trace.outcome)
+        | .error _ => none) with
+      | some l => " | ".intercalate l
+      | none => "bad-op"
+    | none => "bad-op"
+  -- C20_credentials_only_after_verification: the SPECIFICATION side (documented table, expected name, the CA)
+  | "tlscred" :: rest => match parseTlsOp rest with
+    | some t =>
+      match t.dials.mapM (fun d => do
+        let (n, host) ← parseDial d
+        let cert ← nodeCert n (if n == "a" then t.certA else t.certB)
+        let go := Spec.mayProceed t.o host cert
+        let cred := go && (match t.auth, t.fs with
+          | some (.pw p), [_, .authenticate cls, _] => approve cls p.allowed
+          | _, _ => false)
+        some s!"{d} proceeded={bit go} cred={bit cred}") with
+      | some l => " | ".intercalate l
+      | none => "bad-op"
+    | none => "bad-op"
   -- C20_session_config: both Authenticator and AuthProvider ⇒ refused before anything is dialled
   | "sesscfg" :: h :: st :: pv :: fs => match parseConn h st pv, fs.mapM parseFrame with
     | some (_, cfg), some _ =>
